@@ -13,6 +13,14 @@ individual map), folds (split for many k / group columns), extract (every kind o
 count, row bootstrap) - all four share judge_history - and flatten (the flattening tool and
 count_number_of_groups called directly, pure pandas, in-process).
 
+Magnitudes: besides the moderate values that the typed formulas of gen.TreeGen are built for, a table
+holds up to two columns of another scale - integers and dyadic fractions around 1e5 .. 1e12 whose
+neighbours differ by one unit or 1/8 (incomes, zone numbers), or multiples of a tiny unit (1e-7 .. 1e-12) -
+the identifier may be that large as well, scale_column also converts to tiny units (1e-6, 1e-9, 1e-12),
+and add_column derives new columns from them by one arithmetic operation.  count() is asked for a stored
+entry, for a number next to a stored entry (one unit, a relative 1e-6, one ulp, an absolute 1e-9 away) or
+for a constant, and must return exactly the number of rows whose stored entry equals the value.
+
 Failure keys are '<operation>:<aspect>' (+ ':after_gap' when the row index had gaps before the
 operation), e.g. 'add_column:values:after_gap', 'split:complement', 'remove:excludedData'.
 Root causes that were identified on the unchanged tree carry their own key without suffix:
@@ -53,6 +61,13 @@ ASSUMPTIONS = [
     'bootstrap samples are judged by membership of their rows (by value) / of their individuals (identifier '
     'and row range) in the current table, as the property states; the distribution of the sample is not tested',
     'pandas/numpy are trusted for the bookkeeping of the oracle (no use of the functions under test)',
+    'count(column, value) means equality of doubles (the docstring: number of times that the value appears in the '
+    'column): the value is passed as a Python float that is a stored entry, one IEEE operation away from a '
+    'stored entry (computed by the same code in child and parent) or a constant of the spec; all entries of '
+    'integer columns are below 2**53 in magnitude, so that they are the same number as int64 and as float',
+    'columns of large / tiny magnitude are kept out of the typed formula generator; the formulas that use them '
+    'are one correctly rounded operation (+ - * /) or a comparison with a constant, which the reference '
+    'semantics decides only when the operands are exact integers or clearly separated (relative 1e-9)',
 ]
 BUDGETS = dict(quick=dict(shards=8), thorough=dict(shards=16))
 
@@ -61,6 +76,11 @@ CONST_NAMES = ['Age', 'Zone']
 NEW_NAMES = ['NewVariable', 'derived', 'z_new', 'lnx', 'flag', 'seg', 'dd', 'ee', 'ff', 'gg', 'hh2', 'kk',
              'mm', 'nn2', 'pp', 'qq', 'rr', 'ss', 'tt2', 'uu', 'vv', 'ww', 'xx', 'yy', 'zz9']
 MODIFYING = {'remove', 'add_column', 'define_variable', 'scale', 'panel'}
+# magnitudes at which neighbouring integers are within a relative 1e-5 of each other (exact in a double)
+BIG_BASES = [120000, 250000, 26010431, 10 ** 9, 2 ** 31, 10 ** 12]
+TINY_UNITS = [1e-9, 1e-12, 2.0 ** -40, 1e-7]
+FORMULA_CAP = 1e6  # largest magnitude of a value of a formula of the typed generator (see _typed_formula)
+BIG_CAP = 1e13  # entries of the wide-magnitude columns stay exact integers / dyadic fractions of a double
 
 
 # ---------------------------------------------------------------------------------------------
@@ -171,6 +191,37 @@ def extract_positions(kind, ints, n):
     return pos
 
 
+COUNT_MODES = ['+1', '-1', 'rel+', 'rel-', 'ulp+', 'ulp-', 'abs+', 'abs-']
+
+
+def count_value(how, arg, mode, entry):
+    """The value looked up by a count operation ['count', column, [how, arg(, mode)]] (same code in child
+    and parent).  'val': the constant `arg`; 'pos': the entry stored at position `arg` (modulo the number
+    of rows) = `entry`; 'near': a number next to that entry - one unit, a relative 2**-20 (about 1e-6),
+    one ulp or an absolute 1e-9 away - which the column holds only if some row stores exactly that number."""
+    if how == 'val' or entry is None:
+        return float(arg)
+    if how == 'pos':
+        return entry
+    if mode == '+1':
+        return entry + 1.0
+    if mode == '-1':
+        return entry - 1.0
+    if mode == 'rel+':
+        return entry * (1.0 + 2.0 ** -20)
+    if mode == 'rel-':
+        return entry * (1.0 - 2.0 ** -20)
+    if mode == 'ulp+':
+        return float(np.nextafter(entry, math.inf))
+    if mode == 'ulp-':
+        return float(np.nextafter(entry, -math.inf))
+    if mode == 'abs+':
+        return entry + 1e-9
+    if mode == 'abs-':
+        return entry - 1e-9
+    raise ValueError(f'unknown count mode {mode!r}')
+
+
 def flat_reference(m: Model, idcol, identical):
     """Independent re-implementation of the documented layout of flatten_database with
     row_name=None: one row per individual (index = identifier), identical columns once under
@@ -279,8 +330,9 @@ def _observe(spec):
             call = lambda: d.scale_column(op[1], op[2])  # noqa: E731
             enc = lambda r: None  # noqa: E731
         elif kind == 'count':
-            how, arg = op[2]
-            value = float(d.data[op[1]].iloc[arg % n]) if (how == 'pos' and n) else float(arg)
+            how, arg = op[2][0], op[2][1]
+            entry = float(d.data[op[1]].iloc[arg % n]) if (how != 'val' and n) else None
+            value = count_value(how, arg, op[2][2] if len(op[2]) > 2 else None, entry)
             rec['value'] = value
             call = lambda: d.count(op[1], value)  # noqa: E731
             enc = lambda r: int(r)  # noqa: E731
@@ -668,13 +720,22 @@ def _judge_step(out, m: Model, op, rec, snap, ctx, where, unexpected):
     # ------------------------------------------------------------------ count
     if kind == 'count':
         col = op[1]
-        how, arg = op[2]
-        value = m.rows[arg % m.n][col] if how == 'pos' else float(arg)
+        how, arg = op[2][0], op[2][1]
+        value = count_value(how, arg, op[2][2] if len(op[2]) > 2 else None,
+                            None if how == 'val' else m.rows[arg % m.n][col])
         if rec['exc'] is not None:
             unexpected('count')
             return 'ok'
+        # exactly the rows whose stored entry equals the value, whatever the magnitude of the entries
         expected = sum(1 for r in m.rows if r[col] == value)
         out.classes.append('count:hit' if expected else 'count:zero')
+        out.classes.append(f'count:{how}')
+        others = [r[col] for r in m.rows if r[col] != value]
+        if any(abs(x - value) <= 1e-8 + 1e-5 * max(abs(x), abs(value)) for x in others):
+            out.classes.append('count:close_but_different_entries')
+        peak = max(abs(r[col]) for r in m.rows)
+        out.classes.append('count:column_large' if peak >= 1e5 else 'count:column_tiny' if peak < 1e-6
+                           else 'count:column_moderate')
         if rec['ret'] != expected or not _eq(rec['value'], value):
             out.fail(f'count:value{ctx}',
                      f'{where}: count({col!r}, {rec["value"]!r}) = {rec["ret"]}, the column {m.column(col)} '
@@ -1038,7 +1099,8 @@ def _table(draw, focus, big):
 
     max_rows = dict(history=10, panel=12, folds=16, extract=10)[focus] * (2 if big else 1)
     n = draw(st.integers(3, max_rows))
-    counts = dict(real=draw(st.integers(1, 2)), pos=1, int=draw(st.integers(1, 2)), bool=draw(st.integers(1, 2)))
+    counts = dict(real=draw(st.integers(1, 2)), pos=1, int=draw(st.integers(1, 2)), bool=draw(st.integers(1, 2)),
+                  big=draw(st.sampled_from([0, 1, 1, 2])))
     n_const = draw(st.integers(0, 2))
     n_ind = draw(st.integers(1, min(n, 5)))
     ascending = focus != 'panel' or _p(draw, 0.3)
@@ -1048,7 +1110,7 @@ def _table(draw, focus, big):
     names = rnd.sample(gen.COLUMN_NAMES, sum(counts.values()))
     it = iter(names)
     info = dict(real=[], pos=[], int=[], bool=[], choice=None, alts=[], av={}, weight=None, n=n, id=[],
-                const=[])
+                const=[], big=[])
     cols = []
 
     def dtype():
@@ -1080,10 +1142,42 @@ def _table(draw, focus, big):
         name = next(it)
         cols.append([name, dtype(), [rnd.randint(0, 1) for _ in range(n)]])
         info['bool'].append(name)
-    # identifier column: contiguous groups (the documented requirement of panel()), ascending or not
+    # columns of another magnitude (incomes, zone numbers, tiny units): distinct entries that lie within a
+    # relative 1e-5 / an absolute 1e-8 of each other.  They stay out of the typed pools of gen.TreeGen (whose
+    # formulas are built for moderate values) and are used by count, scale, remove, split and the
+    # arithmetic templates of _big_formula.
+    for _ in range(counts['big']):
+        name = next(it)
+        shape = rnd.choice(['int', 'int', 'frac', 'tiny', 'tiny_frac'])
+        few = rnd.random() < 0.5  # few distinct values = repeated entries
+        if shape in ('int', 'frac'):
+            base = rnd.choice(BIG_BASES)
+            if rnd.random() < 0.4:
+                base += rnd.randint(1, 9999)
+            if rnd.random() < 0.15:
+                base = -base
+            width = 1 if few else 3
+            if shape == 'int':
+                vals = [base + rnd.randint(-width, width) for _ in range(n)]
+                cols.append([name, dtype(), vals])
+            else:
+                vals = [base + rnd.randint(-4 * width, 4 * width) / 8 for _ in range(n)]
+                cols.append([name, 'float', vals])
+        else:
+            unit = rnd.choice(TINY_UNITS)
+            width = 2 if few else 6
+            if shape == 'tiny':
+                vals = [rnd.randint(-width, width) * unit for _ in range(n)]
+            else:
+                vals = [rnd.randint(0, 8 * width) / 8 * unit for _ in range(n)]
+            cols.append([name, 'float', vals])
+        info['big'].append(name)
+    # identifier column: contiguous groups (the documented requirement of panel()), ascending or not;
+    # small codes, or numbers of the size of a census / customer identifier
     cuts = sorted(rnd.sample(range(1, n), n_ind - 1))
     sizes = [b_ - a for a, b_ in zip([0] + cuts, cuts + [n])]
-    idents = rnd.sample(range(-2, 31), n_ind)
+    id_base = rnd.choice(BIG_BASES) if rnd.random() < 0.25 else 0
+    idents = [id_base + k for k in rnd.sample(range(-2, 31), n_ind)]
     if ascending:
         idents = sorted(idents)
     idvals = [i for i, s in zip(idents, sizes) for _ in range(s)]
@@ -1091,15 +1185,26 @@ def _table(draw, focus, big):
     extra = [[idname, dtype(), idvals]]
     info['id'] = [idname]
     for cname in CONST_NAMES[:n_const]:
-        per = {i: (rnd.randint(18, 21) if rnd.random() < 0.5 else rnd.randint(1, 40) / 8) for i in idents}
+        large = rnd.random() < 0.2  # constant within an individual, neighbouring large numbers across individuals
+        if large:
+            cbase = rnd.choice(BIG_BASES)
+            per = {i: cbase + rnd.randint(-1, 1) for i in idents}
+        else:
+            per = {i: (rnd.randint(18, 21) if rnd.random() < 0.5 else rnd.randint(1, 40) / 8) for i in idents}
         vals = [per[i] for i in idvals]
         kind = 'int' if all(isinstance(v, int) for v in vals) and rnd.random() < 0.5 else 'float'
         extra.append([cname, kind, vals])
         info['const'].append(cname)
-        info['real'].append(cname)
+        info['big' if large else 'real'].append(cname)
     for e in extra:
         cols.insert(rnd.randint(0, len(cols)), e)
-    info['int'].append([idname, min(idents), max(idents)])
+    if max(abs(i) for i in idents) <= FORMULA_CAP:
+        info['int'].append([idname, min(idents), max(idents)])
+    else:
+        # beyond the magnitude that _typed_formula accepts for the values of a formula: the identifier is
+        # handled like the other wide-magnitude columns (count, remove, split, arithmetic templates; never
+        # scaled), not offered to the typed formula generator
+        info['big'].append(idname)
     index = None
     if label_kind == 'stacked':  # pd.concat([wave_1, wave_2]) without ignore_index
         cut = rnd.randint(1, n - 1)
@@ -1151,12 +1256,41 @@ def _typed_formula(draw, m, info, sort, depth):
         except _Ill:
             continue
         vals = [ev.v for ev in ref]
-        if any(abs(v) > 1e6 for v in vals) or (sort == 'pos' and any(v < 1e-6 for v in vals)):
+        if any(abs(v) > FORMULA_CAP for v in vals) or (sort == 'pos' and any(v < 1e-6 for v in vals)):
             continue
         if cand is not s and sort == 'int':
             _, lo, hi = info['int'][0]
         return cand, vals, lo, hi
     return None, None, None, None
+
+
+def _big_formula(draw, m, info):
+    """Arithmetic on a column of large / tiny entries (a unit conversion, an offset, the difference to one
+    of its entries, a sum with a small code): the derived column again holds distinct neighbouring numbers.
+    Returns (formula, values) or (None, None)."""
+    col = ['Var', draw(st.sampled_from(info['big']))]
+    shape = draw(st.sampled_from(['times', 'times', 'plus', 'minus_entry', 'plus_code', 'divide', 'times_flag']))
+    if shape == 'times':
+        f = ['Times', col, ['Num', draw(st.sampled_from([10, 10.0, 2, -1, 0.5, 0.001, 1e-9, 1000, 0.1, 1e6]))]]
+        if _p(draw, 0.3):
+            f = ['Times', f[2], f[1]]
+    elif shape == 'plus':
+        f = ['Plus', col, ['Num', draw(st.sampled_from([1, -1, 0.5, 100, 0.001, 1e-9]))]]
+    elif shape == 'minus_entry':
+        f = ['Minus', col, ['Num', m.rows[draw(st.integers(0, 10 ** 6)) % m.n][col[1]]]]
+    elif shape == 'plus_code':
+        f = ['Plus', col, ['Var', draw(st.sampled_from([c[0] for c in info['int']] + info['bool']))]]
+    elif shape == 'divide':
+        f = ['Divide', col, ['Num', draw(st.sampled_from([1000, 8, 3, 1e6, 0.5]))]]
+    else:
+        f = ['Times', col, ['Var', draw(st.sampled_from(info['bool']))]]
+    try:
+        vals = [ev.v for ev in ref_values(f, m.rows)]
+    except _Ill:
+        return None, None
+    if any(abs(v) > BIG_CAP for v in vals):
+        return None, None
+    return f, vals
 
 
 def _condition(draw, m, info, want_some):
@@ -1167,11 +1301,20 @@ def _condition(draw, m, info, want_some):
         cands.append(['Lit', draw(st.sampled_from([0, 1, 0.0, True, False]))])
     cands.append(_formula(draw, info, 'cond', draw(st.integers(1, 3)))[0])
     # targeted comparisons against the value of one row
-    pool = info['real'] + info['pos'] + [c[0] for c in info['int']] + info['bool']
+    pool = info['real'] + info['pos'] + [c[0] for c in info['int']] + info['bool'] + info['big']
     col = draw(st.sampled_from(pool))
     pivot = m.rows[draw(st.integers(0, 10 ** 6)) % m.n][col]
     if pivot != math.floor(pivot):
-        pivot += 2.0 ** -12  # inexact values are only compared with numbers they are clearly apart from
+        # inexact values are only compared with numbers they are clearly apart from (on the scale of the
+        # column: a candidate that the reference semantics cannot decide is dropped below)
+        if col not in info['big']:
+            pivot += 2.0 ** -12
+        elif abs(pivot) >= 1:
+            pivot += 2.0 ** -4
+        else:
+            pivot *= 1.0 + 2.0 ** -4
+    elif col in info['big'] and _p(draw, 0.3):
+        pivot += draw(st.sampled_from([1, -1]))  # the neighbouring integer
     ops_ = draw(st.permutations(['Le', 'Ge', 'Lt', 'Gt', 'Eq', 'Ne']))
     for o in ops_:
         cands.append([o, ['Var', col], ['Num', pivot]])
@@ -1245,8 +1388,12 @@ def _step(draw, state):
             name = draw(st.sampled_from(m.cols))
             ops.append([kind, name, _fallback('real', info)])
             return None
-        sort = draw(st.sampled_from(['real', 'real', 'pos', 'int', 'bool']))
-        f, vals, lo, hi = _typed_formula(draw, m, info, sort, draw(st.integers(1, 3)))
+        sort = draw(st.sampled_from(['real', 'real', 'pos', 'int', 'bool'] + (['big', 'big'] if info['big'] else [])))
+        if sort == 'big':
+            f, vals = _big_formula(draw, m, info)
+            lo = hi = None
+        else:
+            f, vals, lo, hi = _typed_formula(draw, m, info, sort, draw(st.integers(1, 3)))
         if f is None:
             return None
         name = new_names.pop(draw(st.integers(0, len(new_names) - 1))) if new_names else None
@@ -1259,15 +1406,23 @@ def _step(draw, state):
         if sort == 'int':
             info['int'].append([name, lo, hi])
         else:
-            info[{'real': 'real', 'pos': 'pos', 'bool': 'bool'}[sort]].append(name)
+            info[sort].append(name)
     elif kind == 'values':
         f, vals, _, _ = _typed_formula(draw, m, info, 'real', draw(st.integers(1, 3)))
         if f is not None:
             ops.append(['values', f])
     elif kind == 'scale':
         ids = set(info['id']) | {m.panel}
-        which = draw(st.sampled_from(['real', 'real', 'pos', 'int']))
-        if which == 'int':
+        which = draw(st.sampled_from(['real', 'real', 'pos', 'int'] + (['big', 'big'] if info['big'] else [])))
+        cap = 1e6
+        if which == 'big':
+            # unit conversions of large / tiny entries: the neighbours stay different numbers
+            col = draw(st.sampled_from(info['big']))
+            if col in ids:
+                return None
+            s = draw(st.sampled_from([1e-9, 1e-6, 0.001, 10, 2, -1, 0.5, 1000, 1, 1000.0, 0.1, 3]))
+            cap = BIG_CAP
+        elif which == 'int':
             cands = [c for c in info['int'] if c[0] not in ids]
             if not cands:
                 return None
@@ -1285,19 +1440,26 @@ def _step(draw, state):
             col = draw(st.sampled_from(info['real']))
             if col == m.panel:
                 return None
-            s = draw(st.sampled_from([0.5, 2, -1, 100, 0.01, 1, 0, -2.5, 0.1, 1000.0]))
+            s = draw(st.sampled_from([0.5, 2, -1, 100, 0.01, 1, 0, -2.5, 0.1, 1000.0, 1e-9, 1e-6, 1e-12]))
         peak = max(abs(r[col]) for r in m.rows) * abs(s)
-        if peak > 1e6 or (which == 'pos' and min(r[col] for r in m.rows) * s < 1e-6):
+        if peak > cap or (which == 'pos' and min(r[col] for r in m.rows) * s < 1e-6):
             return None
         ops.append(['scale', col, s])
         for r in m.rows:
             r[col] = r[col] * float(s)
+        if col not in state['touched']:
+            state['touched'].append(col)
     elif kind == 'count':
-        col = draw(st.sampled_from(m.cols))
-        if _p(draw, 0.8):
+        # every column, with more weight on those whose entries are large, tiny, scaled or derived
+        col = draw(st.sampled_from(m.cols + (info['big'] + state['touched']) * 2))
+        how = draw(st.sampled_from(['pos'] * 5 + ['near'] * 3 + ['val'] * 2))
+        if how == 'pos':
             ops.append(['count', col, ['pos', draw(st.integers(0, 10 ** 6))]])
+        elif how == 'near':
+            ops.append(['count', col, ['near', draw(st.integers(0, 10 ** 6)), draw(st.sampled_from(COUNT_MODES))]])
         else:
-            ops.append(['count', col, ['val', draw(st.sampled_from([0, 1, 2, -1, 0.5, 99]))]])
+            ops.append(['count', col, ['val', draw(st.sampled_from(
+                [0, 1, 2, -1, 0.5, 99, 0.0, 1e-9, 1e-8, -1e-9, 120000, 26010431, 1e9, 2 ** 31]))]])
     elif kind == 'extract':
         kinds = ['list', 'list', 'range', 'range', 'tuple', 'array', 'oob', 'empty']
         if focus == 'extract':
@@ -1332,7 +1494,7 @@ def _step(draw, state):
         k = draw(st.one_of(st.integers(2, 5), st.integers(2, m.n + 2)))
         if _p(draw, 0.03):
             k = draw(st.sampled_from([0, 1, -1]))
-        pool = info['id'] * 3 + [c[0] for c in info['int']] + info['bool'] + info['const']
+        pool = info['id'] * 3 + [c[0] for c in info['int']] + info['bool'] + info['const'] + info['big']
         if m.panel is not None:
             groups = None if _p(draw, 0.6) else (m.panel if _p(draw, 0.85) else draw(st.sampled_from(pool)))
         else:
@@ -1377,7 +1539,7 @@ def histories(draw, tier, focus):
     np_seed = draw(st.integers(0, 2 ** 31 - 1))
     overloads = draw(st.booleans())
     state = dict(m=Model(table), info=info, focus=focus, ops=[], names=list(NEW_NAMES), over=False, steps=0, stale=False,
-                 np_seed=np_seed)
+                 np_seed=np_seed, touched=[])
     limit = 25 if big else 12
     for _ in range(2 * limit):
         if state['over'] or state['m'].n == 0 or len(state['ops']) >= limit:
@@ -1533,7 +1695,8 @@ def strat_flatten(draw, tier):
     dup_names = _p(draw, 0.06)
     n_drop = 0 if _p(draw, 0.2) else draw(st.integers(1, max(1, n // 3)))
     rnd = random.Random(draw(st.integers(0, 2 ** 31 - 1)))
-    idents = rnd.sample(range(1, 40), n_ind)
+    id_base = rnd.choice(BIG_BASES) if rnd.random() < 0.25 else 0
+    idents = [id_base + k for k in rnd.sample(range(1, 40), n_ind)]
     ids = [idents[0]] * n if n_ind == 1 else idents + [rnd.choice(idents) for _ in range(n - n_ind)]
     if interleaved:
         rnd.shuffle(ids)
@@ -1542,14 +1705,25 @@ def strat_flatten(draw, tier):
     cols = []
     pool = rnd.sample(['Age', 'Cost', 'tt', 'x', 'Zone', 'q'], n_const + n_var)
     for name in pool[:n_const]:
-        per = {i: rnd.choice([rnd.randint(18, 21), rnd.randint(1, 40) / 8]) for i in idents}
+        if rnd.random() < 0.25:  # neighbouring large numbers: equal inside a group, merely close across groups
+            cbase = rnd.choice(BIG_BASES)
+            per = {i: cbase + rnd.randint(-1, 1) for i in idents}
+        else:
+            per = {i: rnd.choice([rnd.randint(18, 21), rnd.randint(1, 40) / 8]) for i in idents}
         vals = [per[i] for i in ids]
         cols.append([name, 'int' if all(isinstance(v, int) for v in vals) else 'float', vals])
     for name in pool[n_const:]:
-        if rnd.random() < 0.5:
+        shape = rnd.random()
+        if shape < 0.4:
             cols.append([name, 'int', [rnd.randint(0, 3) for _ in range(n)]])
-        else:
+        elif shape < 0.8:
             cols.append([name, 'float', [rnd.randint(-16, 16) / 8 for _ in range(n)]])
+        elif shape < 0.9:  # close but different inside a group: must not be taken for identical
+            cbase = rnd.choice(BIG_BASES)
+            cols.append([name, 'int', [cbase + rnd.randint(-1, 1) for _ in range(n)]])
+        else:
+            unit = rnd.choice(TINY_UNITS)
+            cols.append([name, 'float', [rnd.randint(0, 3) * unit for _ in range(n)]])
     rnd.shuffle(cols)
     drop = sorted(rnd.sample(range(n), n_drop))
     names = None
@@ -1599,7 +1773,11 @@ SUBCHECKS = [
              'waves = repeated labels, offset or shuffled) x 3-12 interleaved operations (remove, add_column, '
              'define_variable, values_from_database, scale_column, count, extract_rows, sample_with_replacement, '
              'split, panel, sample_individual_map, flat panel, Database rebuilt from a bootstrap sample or from '
-             'extract_rows with repeated positions), table compared with the '
+             'extract_rows with repeated positions), on columns of moderate values plus columns of large '
+             'neighbouring values (around 1e5 .. 1e12, one unit or 1/8 apart; the identifier too) or tiny '
+             'values (multiples of 1e-7 .. 1e-12, also produced by scale_column and add_column); count() of a '
+             'stored entry, of a number next to one (one unit, relative 1e-6, one ulp, 1e-9) or of a constant '
+             'must be the exact number of rows holding that value; table compared with the '
              'model after every step (identifiers in arbitrary order and the bootstrap of individuals after a '
              'removal in panel mode are left to the panel sub-check); non-trivial: >= 3 operations and a removal '
              'that deleted >= 1 row followed by add_column/define_variable/split', max_skip_fraction=0.1),
@@ -1624,7 +1802,8 @@ SUBCHECKS = [
                                                       'define_variable')), render,
              dict(quick=700, thorough=20000),
              'extract_rows with every kind of iterable (list, tuple, range, array, one-shot iterator, out of '
-             'range, empty), count and row bootstrap on a table with gaps; non-trivial: >= 3 operations, a '
+             'range, empty), count (exact equality, also among large neighbouring values and tiny values after '
+             'scaling) and row bootstrap on a table with gaps; non-trivial: >= 3 operations, a '
              'removal that deleted >= 1 row followed by extract/count/sample/add_column',
              max_skip_fraction=0.1),
     SubCheck('flatten', strat_flatten, judge_flatten, render_flatten, dict(quick=800, thorough=20000),
